@@ -306,6 +306,8 @@ def m4_entity_isolation(run):
     fi = m.func("mdstore.MetadataStore.attribute_requirement")
     cfg = cfg_of(fi, m)
     for r in cfg.by_kind("return"):
+        if r.ast.value is None or is_falsy_const(r.ast.value):
+            continue            # "no source knows the entity": None
         gs = facts(cfg, r.id)
         run.check(Q("entity_id in _md", True) in gs and
                   unparse(r.ast.value) ==
@@ -422,12 +424,11 @@ def m7_generator_publishes_every_key(run):
         if not (isinstance(kd, ast.Call) and call_name(kd) == "KeyDescriptor"):
             continue
         use = arg_of(kd, None, "use")
-        texts = [k.value for x in ast.walk(kd) if isinstance(x, ast.Call) and
-                 call_name(x) == "X509Certificate" for k in x.keywords
-                 if k.arg == "text"]
-        src = set()
-        for t in texts:
-            src |= {(a.kind, a.text) for a in org.of(t, nd.id)}
+        ki = arg_of(kd, None, "key_info")
+        korg = Origins(cfg, transparent={"KeyInfo": "all", "X509Data": "all",
+                                         "X509Certificate": "all"})
+        src = {(a.kind, a.text) for a in korg.of(ki, nd.id)} \
+            if ki is not None else set()
         key = "%s::%s" % (fi.qual, norm_text(c)[:40] + "..use=" +
                           (unparse(use) if use is not None else "None"))
         want = {"'signing'": ("param", "cert"),
